@@ -14,7 +14,10 @@ ASSUMPTIONS = {
           "are consecutive; after skip_to_end every pull returns None; try_get_len never grows; into_seq_iter yields the "
           "remaining elements in source order; ConIterOfIter serialises Iterator::next; ConcurrentOrderedBag::set_value(s) "
           "initialise exactly the addressed slots; SplitVec<_, Recursive>::append keeps every fragment; the d-ary heap pops a "
-          "node with the smallest key",
+          "node with the smallest key. Known limits of T3, reproduced and listed in DESIGN.md section 7: positions overflow for "
+          "ranges ending near usize::MAX and for sources of >= 2^63 elements; ConIterOfIter deadlocks when the wrapped iterator's "
+          "next() panics; orx-split-vec rejects some SplitVec targets (fragment table > 32 entries, Linear From<Vec>, zero-sized "
+          "elements) in reserve_maximum_concurrent_capacity / the bag conversion",
     'T4': "T4 the analyses of /verif/sa themselves (exercised both ways by fixtures and seeded mutants)",
 }
 
